@@ -65,6 +65,11 @@ pub struct Scenario {
     /// start does not read its response body until the stream has ended
     #[serde(default)]
     pub lag_deltas: Option<u32>,
+    /// thread streams only: the watched thread is a fresh branch (low seqs) of a thread that already
+    /// has a history (high seqs) and receives a post before every post to the watched one — the
+    /// store publishes all threads on one live channel, so the subscriber's filter sees both
+    #[serde(default)]
+    pub busy_other_thread: bool,
 }
 
 #[derive(Clone, Debug, Serialize, Deserialize, PartialEq)]
@@ -221,7 +226,7 @@ fn tool_input(rng: &mut Rng) -> String {
 pub fn generate(run_seed: u64, _tier: Tier) -> Scenario {
     let mut rng = Rng::derive(run_seed, "c06");
     if Rng::derive(run_seed, "c06-kind").chance(1, 4) {
-        return Scenario { store: Some(generate_store(run_seed)), kind: Kind::Thread { inputs: vec![] }, with_provider: false, script: vec![], plan: Plan::default(), subs: vec![], sub_hold_ms: 0, workers: 0, lag_deltas: None };
+        return Scenario { store: Some(generate_store(run_seed)), kind: Kind::Thread { inputs: vec![] }, with_provider: false, script: vec![], plan: Plan::default(), subs: vec![], sub_hold_ms: 0, workers: 0, lag_deltas: None, busy_other_thread: false };
     }
     let mut lag = Rng::derive(run_seed, "c06-lag");
     if lag.chance(1, 50) {
@@ -238,7 +243,7 @@ pub fn generate(run_seed: u64, _tier: Tier) -> Scenario {
         if lag.chance(1, 2) {
             subs.push(When::AfterEnd);
         }
-        return Scenario { store: None, kind: Kind::Session { input: "say a great deal".into() }, with_provider: true, script, plan: Plan::default(), subs, sub_hold_ms: 0, workers: if lag.chance(1, 3) { 3 } else { 0 }, lag_deltas: Some(n) };
+        return Scenario { store: None, kind: Kind::Session { input: "say a great deal".into() }, with_provider: true, script, plan: Plan::default(), subs, sub_hold_ms: 0, workers: if lag.chance(1, 3) { 3 } else { 0 }, lag_deltas: Some(n), busy_other_thread: false };
     }
     let with_provider = rng.chance(2, 3);
     let input = |rng: &mut Rng| if rng.chance(2, 3) { format!("say something {}", rng.below(100)) } else { tool_input(rng) };
@@ -296,7 +301,8 @@ pub fn generate(run_seed: u64, _tier: Tier) -> Scenario {
         subs.push(When::AfterMs(rng.below(20)));
     }
     let random = if rng.chance(2, 3) { Some((rng.next_u64(), 1, rng.range(2, 6), rng.range(1, 12))) } else { None };
-    Scenario { store: None, kind, with_provider, script, plan: Plan { rules, random }, subs, sub_hold_ms: rng.below(40), workers, lag_deltas: None }
+    let busy_other_thread = matches!(kind, Kind::Thread { .. }) && Rng::derive(run_seed, "c06-other-thread").chance(1, 2);
+    Scenario { store: None, kind, with_provider, script, plan: Plan { rules, random }, subs, sub_hold_ms: rng.below(40), workers, lag_deltas: None, busy_other_thread }
 }
 
 // ---------------------------------------------------------------------------------------------
@@ -410,8 +416,40 @@ pub fn execute(sc: &Scenario, env: &Env) -> (Outcome, RunStats) {
         Ok((_, v)) => v.get("thread_id").and_then(|t| t.as_str()).unwrap_or("").to_string(),
         Err(e) => return (Outcome::Harness(format!("ensure: {e}")), stats),
     };
+    // the watched thread as a branch of a thread with a history
+    let mut other: Option<String> = None;
+    let mut tid = tid;
+    if sc.busy_other_thread {
+        let prep = (|| -> Result<String, String> {
+            let mut runs = Vec::new();
+            for _ in 0..2 {
+                let (st, v) = engine.call_json("POST", &format!("/threads/{tid}/messages"), Some(json!({"content": json!({"tool": "ls", "args": {"path": "."}}).to_string()})))?;
+                if st != 202 {
+                    return Err(format!("prepare post: {st}"));
+                }
+                runs.push(v["session_id"].as_str().unwrap_or("").to_string());
+            }
+            let log_path = engine.data.join("events.jsonl");
+            if !drive(&engine, Duration::from_secs(30), || crate::model::parse_truth_file(&log_path).map(|t| runs.iter().all(|s| t.frames.iter().any(|f| f.ty == "continuity_run_ended" && f.s("run_session_id") == Some(s.as_str())))).unwrap_or(false)) {
+                return Err("preparation runs did not end".into());
+            }
+            let (st, v) = engine.call_json("POST", &format!("/threads/{tid}/branch"), Some(json!({})))?;
+            if st != 200 && st != 201 {
+                return Err(format!("branch: {st} {v}"));
+            }
+            Ok(v["thread_id"].as_str().unwrap_or("").to_string())
+        })();
+        match prep {
+            Ok(b) => {
+                other = Some(tid.clone());
+                tid = b;
+                stats.bump("thread_scenarios_with_a_busier_other_thread", 1);
+            }
+            Err(e) => return (Outcome::Harness(e), stats),
+        }
+    }
     gates::install(sc.plan.clone());
-    let result = run_scenario(sc, &engine, &tid, &mut stats);
+    let result = run_scenario(sc, &engine, &tid, other.as_deref(), &mut stats);
     gates::release_all();
     let (visits, holds) = gates::uninstall();
     for (k, v) in visits {
@@ -428,7 +466,7 @@ pub fn execute(sc: &Scenario, env: &Env) -> (Outcome, RunStats) {
     }
 }
 
-fn run_scenario(sc: &Scenario, engine: &Engine, tid: &str, stats: &mut RunStats) -> Result<Option<Violation>, String> {
+fn run_scenario(sc: &Scenario, engine: &Engine, tid: &str, other: Option<&str>, stats: &mut RunStats) -> Result<Option<Violation>, String> {
     let kind_name = match &sc.kind {
         Kind::Session { .. } => "session",
         Kind::SessionViaThread { .. } => "session_via_thread",
@@ -506,6 +544,13 @@ fn run_scenario(sc: &Scenario, engine: &Engine, tid: &str, stats: &mut RunStats)
         }
         Kind::Thread { inputs } => {
             for input in inputs {
+                if let Some(o) = other {
+                    let (st, v) = engine.call_json("POST", &format!("/threads/{o}/messages"), Some(json!({"content": input})))?;
+                    if st != 202 {
+                        return Err(format!("post to the other thread: {st}"));
+                    }
+                    run_sessions.push(v["session_id"].as_str().unwrap_or("").to_string());
+                }
                 let (st, v) = engine.call_json("POST", &format!("/threads/{tid}/messages"), Some(json!({"content": input})))?;
                 if st != 202 {
                     return Err(format!("post: {st}"));
